@@ -1,6 +1,7 @@
 package main
 
 import (
+	"golang.org/x/tools/go/ssa"
 	"os"
 	"runtime/debug"
 	"fmt"
@@ -746,6 +747,33 @@ func (e *Env) sel(x *SExpr) Val {
 			return intVal(fmt.Sprintf("(s.%s %s)", x.Name, a.T))
 		}
 	}
+	// a ghost field on a struct-VALUED field (w.wg.waited): the ghost hangs on the interior address
+	// of that field inside its object
+	if a.Ty != nil && x.A.Kind == SSel {
+		if st, isS := structOf(a.Ty); isS {
+			if _, isPtr := types.Unalias(a.Ty).Underlying().(*types.Pointer); !isPtr {
+				real := false
+				for i := 0; i < st.NumFields(); i++ {
+					if st.Field(i).Name() == x.Name {
+						real = true
+					}
+				}
+				if gty, ok := e.fg.g.ct.GhostFields["any."+x.Name]; ok && !real {
+					loc := e.fg.specLoc(x.A, e)
+					if loc != nil {
+						t, srt := e.resolveType(gty)
+						if t != nil {
+							srt = e.sorts().sortOf(t)
+						}
+						fam := "G_any_" + sanitize(x.Name)
+						e.fg.heapSort[fam] = "(Array Int " + srt + ")"
+						l := &Loc{Kind: LGhost, Heap: fam, Ref: e.fg.interiorRef(loc), Ty: t, GSort: srt}
+						return Val{T: e.fg.load(e.st, l), Ty: t, Sort: srt}
+					}
+				}
+			}
+		}
+	}
 	return e.selVal(x, a, x.Name)
 }
 
@@ -917,6 +945,41 @@ func (e *Env) call(x *SExpr) Val {
 			case "isNilSlice":
 				a := e.tr(x.Args[0])
 				return boolVal(fmt.Sprintf("(= (s.arr %s) 0)", a.T))
+			case "isFunc":
+				// isFunc(f, "pkg.(*T).m"): the function value f is statically known to be that function
+				// (method expressions and bound methods count: their wrappers are looked through). A static
+				// fact of the program text, used in wiring assertions; false when the value is not known.
+				if len(x.Args) != 2 || x.Args[1].Kind != SStr {
+					e.fail(x, "isFunc(value, \"function key\")")
+				}
+				a := e.tr(x.Args[0])
+				if a.Clo != nil && a.Clo.fn != nil {
+					fn := a.Clo.fn
+					k := e.fg.g.keyOf(fn)
+					if k != x.Args[1].Name {
+						// a thunk / bound-method wrapper: one call to the wrapped method
+						name := fn.Name()
+						if strings.HasSuffix(name, "$thunk") || strings.HasSuffix(name, "$bound") {
+							for _, b := range fn.Blocks {
+								for _, in := range b.Instrs {
+									if c, ok := in.(*ssa.Call); ok {
+										if cf := c.Common().StaticCallee(); cf != nil {
+											k = e.fg.g.keyOf(cf)
+										}
+									}
+								}
+							}
+						}
+					}
+					if k == x.Args[1].Name {
+						return boolVal("true")
+					}
+					return boolVal("false")
+				}
+				// not statically known (e.g. the result of a call that is summarised by its contract):
+				// neither true nor false - an unconstrained Boolean, so that the clause proves nothing
+				// as an obligation and assumes nothing as a hypothesis
+				return boolVal(e.fg.fresh("isfunc", "Bool"))
 			case "typeIs":
 				// typeIs(ifaceValue, T)
 				a := e.tr(x.Args[0])
